@@ -124,7 +124,23 @@ class TtlForC08(c02.TtlMode):
 class RelayForC08(RelayMode):
     """the loopback relay histories (zero-length frames, odd paths, bad codes, repeated scopes, the relay's own `stats` topic):
     whatever clients do, the process must survive — more cases wait for the stats reporter to consume what was sent to it"""
-    settle_prob = 0.6
+    settle_prob = 0.3
+
+    def gen_case(self, rng):
+        case = super().gen_case(rng)
+        if rng.random() < 0.25:
+            # degenerate frames addressed to the relay's own consumer on the `stats` topic, then time for it to consume them
+            from relaycommon import tok, sval, lval
+            from vlib import hx
+            now = int(case[1].split(" ")[1])
+            ncodes = sum(1 for l in case if l.startswith("session ") and ";sig=good;" in l and "alg=HS256" in l)   # only a lower bound is needed: use a fresh instance instead
+            tail = ["config 0 64", f"now {now}", f"session {tok(now, topic=sval('stats'), bid=sval('b1'), scopes=lval(['write']))} {hx('stats')}",     # write-only: whatever the reporter publishes is not this probe's business
+                    f"ws {hx('/session/stats')} c0"]
+            for payload in rng.sample(["-", hx("{}"), hx("{"), hx("[]"), hx("null"), hx('{"cmd":"updat"}'), hx('{"cmd":5}'), hx("\x00"), hx(" "), hx('"')], 5):
+                tail.append(f"send n0 {payload} {rng.choice([1, 2])}")
+            tail += ["settle 1300", "sync", "members"]
+            return tail
+        return case
 
 
 def modes(tier):
